@@ -115,4 +115,26 @@ def updateNestedT (k : Nat) (td : Nat) (x : TSlots α) (to : Nat) (y : TSlots α
     | none => none
   | none => some (.dict td (setSlotT x k (some (.dict to y))), [td])   -- `d[key] = other`
 
+mutual
+/-- the dictionary objects of a value, each with everything below it (preorder) -/
+def subsV : TVal α → List (TVal α)
+  | .leaf _ _ => []
+  | .dict t l => .dict t l :: subsL l
+def subsL : TSlots α → List (TVal α)
+  | [] => []
+  | none :: r => subsL r
+  | some v :: r => subsV v ++ subsL r
+end
+
+/-- the identity of a dictionary object (`none` for a leaf) -/
+def rootTok : TVal α → Option Nat
+  | .dict t _ => some t
+  | .leaf _ _ => none
+
+/-- the outcome of the value model that corresponds to an optional result of the identity model
+(`none` = `TypeError`) -/
+def toOut {β : Type} : Option β → Out β
+  | some b => .ok b
+  | none => .typeError
+
 end Lena.C07
